@@ -595,3 +595,84 @@ def backend_family(tier):
         os.remove(f)
     cache_put(key, res)
     return res
+
+
+# ---------------------------------------------------------------------------------------------
+# hostile input family (C16)
+# ---------------------------------------------------------------------------------------------
+def _hostile_class(e):
+    d = e.get("desc", "")
+    if e.get("family") == "bytes":
+        if d.startswith("nesting"):
+            return "nesting"
+        if "array header" in d:
+            return "array_header"
+        if "bulk" in d:
+            return "bulk_header"
+        return "bytes_other"
+    return (d.split(" ") or ["?"])[0] or "empty"
+
+
+def hostile_family(tier):
+    sd = seed()
+    key = "hostile_%s_%s_%d" % (tree_hash(), tier, sd)
+    cached = cache_get(key)
+    if cached:
+        log("hostile family: cache hit")
+        return cached
+    t0 = time.time()
+    build_harness()
+    mc = None
+    if not os.environ.get("VERIF_SKIP_MC"):
+        m = tlc_model_check("session", "Session_MC.tla", "Session_MC.cfg", workers=4, timeout=600, xmx="4g", extra="")
+        for v in ("trust_declared", "unbounded_depth", "trust_numkeys"):
+            r = tlc_model_check("session_bad_" + v, "Session_MC.tla", "Session_MC_bad_%s.cfg" % v, workers=2, timeout=300, xmx="2g", extra="")
+            if r.get("ok") or not r.get("violated"):
+                raise ToolError("Session design model accepts the seeded design error %s" % v)
+        mc = dict(m, name="Session_MC + 3 seeded design errors rejected")
+    d = fresh_dir(os.path.join(WORK, "hostile_" + tier))
+    base = 31000 + (os.getpid() % 50) * 40
+    cmds, files = [], []
+    nb = 4
+    for p in range(nb):
+        f = os.path.join(d, "bytes_%02d.ndjson" % p)
+        cmds.append("%s hostile-runs --family bytes --out %s --port %d --part %d --parts %d" % (UVERIF, f, base + p, p, nb))
+        files.append(f)
+    nc = 10
+    rnd = 400 if tier == "quick" else 40000
+    for p in range(nc):
+        f = os.path.join(d, "cmd_%02d.ndjson" % p)
+        cmds.append("%s hostile-runs --family cmd --out %s --port %d --part %d --parts %d --seed %d --random %d" % (UVERIF, f, base + nb + p, p, nc, sd, rnd))
+        files.append(f)
+    rc, out = _run_cmds(cmds, timeout=3000 if tier == "quick" else 20000)
+    if rc != 0:
+        raise ToolError("hostile rig failed: " + out[-2000:])
+    verdicts = validate_shards("Session_Trace.tla", "Session_Trace.cfg", files, jobs=14, timeout=3000)
+    viols, divs, cases, kinds, samples, nontrivial = [], [], 0, {}, [], 0
+    for v in verdicts:
+        if not v["consumed"]:
+            raise ToolError("Session_Trace did not consume %s\n%s" % (v["shard"], v.get("tlc_tail", "")))
+        lines = [json.loads(x) for x in open(v["shard"]).read().splitlines()]
+        for x in v["viol"]:
+            e = lines[x["line"] - 1]
+            viols.append({"mon": x["mon"], "cls": _hostile_class(e), "case": dict(e, kind="hostile")})
+        for x in v["div"]:
+            divs.append({"mon": x["mon"], "line": lines[x["line"] - 1]})
+        for e in lines:
+            if e["ev"] != "case":
+                continue
+            cases += 1
+            k = "%s/%s/%s" % (e["family"], e["phase"], e["outcome"])
+            kinds[k] = kinds.get(k, 0) + 1
+            if e["family"] == "bytes" or e["outcome"] != "reply" or e["bytes"] > 200:
+                nontrivial += 1
+            if len(samples) < 3 and e["family"] == "bytes" and "array header" in e["desc"] and e["phase"] == "after_meta":
+                samples.append({k2: e[k2] for k2 in ("desc", "bytes", "outcome", "ms", "probe", "alive", "rss_before_kb", "hwm_after_kb")})
+    res = {"tier": tier, "seed": sd, "wall_s": time.time() - t0, "cases": cases, "kinds": kinds, "nontrivial": nontrivial,
+           "violations": viols[:300], "violation_count": len(viols), "divergences": divs[:50], "samples": samples, "mc": mc}
+    for f in files:
+        os.remove(f)
+        if os.path.exists(f + ".stderr"):
+            os.remove(f + ".stderr")
+    cache_put(key, res)
+    return res
